@@ -2,6 +2,7 @@ import OpusProofs.SilkParamsNlsf
 import OpusProofs.SilkParamsLpc
 import OpusProofs.SilkParamsGains
 import OpusProofs.SilkParamsDec
+import OpusProofs.SilkParamsPitchEnc
 import OpusProofs.SilkParamsRangeNlsf2a
 import OpusProofs.SilkParamsRangeBridge
 import OpusProofs.SilkParamsRangeInvGain
@@ -229,6 +230,31 @@ theorem pitch_in_range (lagIndex contour fs : Int) (nb : Nat)
 
 example : decodePitch 100 33 16 4 = .ok [123, 129, 135, 141] ∧ decodePitch (-7) 2 8 2 = .ok [16, 16] ∧
     pitchCodebook 16 4 = .ok (SilkNlsf.cbLagsStage3, 34) := by decide +kernel
+
+/-- Clause "quantising parameters on the encoder side and dequantising them gives the same values the decoder will
+    reconstruct", for pitch lags and contours.  `pitchEncTail` is the integer tail of `silk_pitch_analysis_core_FLP`
+    (pitch_analysis_core_FLP.c:459-472; the same lines in the fixed-point file): from the selected lag (`lag_new` at
+    12/16 kHz, the stage-2 `lag` at 8 kHz) and contour `CBimax` it produces the per-sub-frame lags the encoder itself
+    uses (`psEncCtrl->pitchL[]`) and the transmitted `lagIndex` / `contourIndex`.  For every rate, both sub-frame counts,
+    every lag in `[2·Fs, 18·Fs]` (a superset of the search range `[min_lag, max_lag]`, max_lag = 18·Fs − 1) and every
+    contour of the codebook the rate / sub-frame count selects: the `(opus_int16)` / `(opus_int8)` stores are lossless,
+    and `silk_decode_pitch` applied to the two indices returns exactly the encoder's `pitch_out` — same codebook, same
+    `min_lag`, and the same clamp `[2·Fs, 18·Fs]` on both sides. -/
+theorem pitch_enc_dec_agree (fs : Int) (nb : Nat) (lag cbimax : Int)
+    (hfs : fs = 8 ∨ fs = 12 ∨ fs = 16) (hnb : nb = 2 ∨ nb = 4)
+    (hl : 2 * fs ≤ lag ∧ lag ≤ 18 * fs) (hc : 0 ≤ cbimax ∧ cbimax < ((pitchEncCodebook fs nb).2 : Int)) :
+    ∃ o, pitchEncTail fs nb lag cbimax = .ok o ∧ o.lagIndex = lag - 2 * fs ∧ o.contourIndex = cbimax ∧
+      decodePitch o.lagIndex o.contourIndex fs nb = .ok o.pitchOut ∧ o.pitchOut.length = nb ∧
+      ∀ l ∈ o.pitchOut, 2 * fs ≤ l ∧ l ≤ 18 * fs :=
+  pitchEncTail_spec fs nb lag cbimax hfs hnb hl hc
+
+/- Non-vacuity: a lag one below the top of the range with a rising contour reaches the legal maximum 18·Fs = 216
+   on both sides (a clamp to the search bound 18·Fs − 1 on the encoder side would give 215 ≠ 216); a lag at the
+   bottom with a falling contour is clamped to 2·Fs on both sides; an 8 kHz stage-2 case. -/
+example : pitchEncTail 12 2 215 4 = .ok ⟨[216, 214], 191, 4⟩ ∧ decodePitch 191 4 12 2 = .ok [216, 214] ∧
+    pitchEncTail 16 4 33 33 = .ok ⟨[32, 32, 36, 42], 1, 33⟩ ∧ decodePitch 1 33 16 4 = .ok [32, 32, 36, 42] ∧
+    pitchEncTail 8 4 144 10 = .ok ⟨[144, 144, 144, 143], 128, 10⟩ ∧ decodePitch 128 10 8 4 = .ok [144, 144, 144, 143] ∧
+    (pitchEncCodebook 12 2).2 = 12 := by decide +kernel
 
 /-! ## Range theorems: no 32-bit wrap, no truncating `(opus_int16)` cast -/
 
